@@ -180,6 +180,13 @@ type postEvent struct {
 	ExtLock   bool                `json:"extlock"` // another connection held a read transaction on the database file while this request was served
 }
 
+type presetEvent struct {
+	E      string              `json:"e"`
+	Run    string              `json:"run"`
+	K      int                 `json:"k"`
+	Stored map[string]world.CP `json:"stored"`
+}
+
 func bastionMain(args []string) error {
 	fs := flag.NewFlagSet("bastion", flag.ExitOnError)
 	in := fs.String("in", "", "runs file")
@@ -385,6 +392,17 @@ func driveBastion(w *world.World, r bastionRun, tag, storeKind, embed string, li
 	for k, s := range r.Steps {
 		if s.SleepMS > 0 {
 			time.Sleep(time.Duration(s.SleepMS) * time.Millisecond)
+		}
+		if s.Op == "preset" {
+			// the service was started on a database that ALREADY holds an acknowledged checkpoint of size 1 for s.Log (written by the harness the
+			// way the pinned release writes it): the judge is told what is in the file, not what the service says is in it
+			st := map[string]world.CP{}
+			for name := range w.Logs {
+				st[name] = world.CP{None: true}
+			}
+			st[s.Log] = world.CP{B: 0, N: 1, Lines: 1 + w.P.NWitKeys, Ext: 0}
+			events = append(events, presetEvent{E: "preset", Run: tag, K: k, Stored: st})
+			continue
 		}
 		preAbs := project(w, pre)
 		var stored *world.CP
